@@ -73,7 +73,12 @@ def _run_one(args):
     signal.alarm(TASK_TIMEOUT)
     stale = isinstance(task, dict) and task.get("_stale_blackboard")
     dupflag = isinstance(task, dict) and task.get("_dupflag")
+    warm = isinstance(task, dict) and task.get("_warm_blackboard")
     try:
+        if warm:
+            from . import families
+            families.WARM[0] = True
+            rep.class_suffix = ":warm_attribute_blackboard"
         if stale:
             from . import families
             families.STALE[0] = True
@@ -90,6 +95,10 @@ def _run_one(args):
         err = traceback.format_exc()
     finally:
         signal.alarm(0)
+        if warm:
+            families.WARM[0] = False
+            rep.counters = {"warm_blackboard:" + k: v for k, v in rep.counters.items()}
+            rep.count("warm_blackboard:tasks")
         if dupflag:
             mouette.config.display_duplicate_attribute_warning = _old_dup
             rep.counters = {"duplicate_attribute_flag:" + k: v for k, v in rep.counters.items()}
@@ -161,11 +170,15 @@ def main():
         # history deviation shared by several drivers (mc/families.py, STALE): the same task once more on meshes whose
         # attribute blackboard was filled on another geometry before the vertices were moved to the tested positions
         tasks += [dict(t, _stale_blackboard=True) for t in tasks if isinstance(t, dict) and driver.stale_variant(t, args.tier)]
+    if hasattr(driver, "warm_variant"):
+        # history deviation: the same task on meshes whose attribute blackboard is already filled (with valid values)
+        tasks += [dict(t, _warm_blackboard=True) for t in tasks if isinstance(t, dict) and not t.get("_stale_blackboard")
+                  and driver.warm_variant(t, args.tier)]
     if hasattr(driver, "dupflag_variant"):
         # configuration deviation shared by several drivers: config.display_duplicate_attribute_warning = True makes
         # create_attribute hand back an existing attribute of the same name instead of a fresh one
         tasks += [dict(t, _dupflag=True) for t in tasks if isinstance(t, dict) and not t.get("_stale_blackboard")
-                  and driver.dupflag_variant(t, args.tier)]
+                  and not t.get("_warm_blackboard") and driver.dupflag_variant(t, args.tier)]
     if args.only:
         tasks = [t for t in tasks if args.only in json.dumps(t)]
     if args.list_tasks:
@@ -322,6 +335,10 @@ def _replay(driver, pid, path):
         from . import families
         families.STALE[0] = True
         rep.class_suffix = ":stale_attribute_blackboard"
+    if isinstance(data["task"], dict) and data["task"].get("_warm_blackboard"):
+        from . import families
+        families.WARM[0] = True
+        rep.class_suffix = ":warm_attribute_blackboard"
     if isinstance(data["task"], dict) and data["task"].get("_dupflag"):
         import mouette
         mouette.config.display_duplicate_attribute_warning = True
